@@ -19,20 +19,31 @@ import stixgen
 import tr_tables
 
 MANIFEST = {
-    "text": "Theorems over every input JSON value and every fuel about the schema interpreter model (Model/Schema.v: "
-            "clean per property kind, _STIXBase.__init__, parse dispatch, serialization) for an ARBITRARY class table "
-            "under a boolean side condition (world_refines) that the kernel evaluates on the tables regenerated from "
-            "/repo; per-kind soundness lemmas + object-level lemma + co-constraint soundness + induction over the construct / "
-            "parse / parse_observable knot; defect variants with refuted witnesses. strict_sound_partial_wide covers 115 of "
-            "the 123 generated classes (kernel-computed list lib_covered2, written to the evidence on every run); NOT covered: "
-            "Indicator, ObservedData, MarkingDefinition, Bundle of both versions (pattern validator oracle, observable "
-            "containers, marking wrapping, bundle members), for which the oracle + correspondence carry the property.",
-    "design_ref": "DESIGN.md 6/C02, Appendix A.7",
-    "note": "Trusted: Coq kernel + vm_compute, tr_tables translator (live classes; fail-closed), the frozen specification "
-            "tables /verif/spec (audited/seeded), Spec/StixValid.v, the stix2patterns validator as pattern oracle. "
-            "Partial theorem: restricted by two explicit boolean predicates -- req_scope (no custom_properties / "
-            "extension-definition / toplevel-property-extension marker in the input) and class_proved2 (covered classes).",
-    "technique": "Coq proof over a hand model + generated tables; kernel-evaluated refinement; correspondence + oracle on real output",
+    "text": "PROVED (Coq, closed under the global context), for an ARBITRARY class table w and specification table sp, every "
+            "input JSON value, every fuel: strict_sound_partial / strict_sound_partial_wide -- if world_refines w sp = true "
+            "(decidable table refinement, kernel-evaluated on the tables regenerated from /repo on every run: "
+            "lib_refines_spec_modulo_failures), the variant is the repaired one at every C02 defect site (variant_sound), the "
+            "request is strict and non-interoperability (req_strict) and in scope (req_scope: no custom_properties member, no "
+            "extension-definition-- key, no toplevel-property-extension marker), and the result class satisfies the explicit "
+            "coverage predicate class_proved2, then a successful construct / parse / parse_observable returns an object "
+            "without custom flag whose serialization the specification validator accepts. Proof: per-kind soundness lemmas, "
+            "object-level lemma, co-constraint soundness, induction over the construct/parse knot. class_proved2 holds for 120 "
+            "of the 123 generated classes (kernel-computed lists lib_covered / lib_covered2 in the evidence); NOT covered: "
+            "2.0/MarkingDefinition (it is the known finding C02-v20-marking-definition-created-without-milliseconds) and both "
+            "Bundle classes (a bundle may carry a 2.0 marking-definition). Three strict_sound_refuted_* theorems give, for the "
+            "defective variants ($ anchors, uuid text, empty extensions), a strict in-scope request whose output is refused "
+            "for every validator fuel. CORRESPONDENCE / ORACLE ONLY (not proved): the uncovered classes, inputs outside "
+            "req_scope, interoperability mode, allow_custom mode, Python-only argument values, state kept between calls.",
+    "design_ref": "DESIGN.md 6/C02, Appendix A.7; design_notes/C02-C03.md",
+    "note": "Trusted: Coq kernel + vm_compute; tr_tables translator (live classes of the tree under test; fail-closed); the "
+            "frozen specification tables /verif/spec (audited: 2.1 confidence 0..100, 2.0 marking-definition created "
+            "millisecond-exact; the rest seeded) and Spec/StixValid.v; the stix2patterns validator as pattern oracle; the "
+            "C08 model for granular-marking selectors; the harness (generators, the output-repair classification of known "
+            "findings). The model-to-code tie is the correspondence run (exact output text and error class on ~1250 generated "
+            "calls per quick run, 19 run-time detected variant switches) plus the oracle: every strict success of the "
+            "implementation is serialized and judged by the kernel-evaluated validator.",
+    "technique": "Coq proof over a hand-written interpreter model + tables generated from source; kernel-evaluated table "
+                 "refinement naming the failing slot; correspondence + property oracle on the real implementation's output",
 }
 
 U = "8d1c5bdf-5a0e-4b8e-9a3c-1f2e3d4c5b6a"
